@@ -47,6 +47,15 @@ def affine(t, atom_name=None):
     if k == 'un' and t[1] == 'Neg':
         return {a: -c for a, c in affine(t[2], atom_name).items()}
     nm = atom_name(t) if atom_name else None
+    if nm is None and k == 'call' and '{closure' in t[1].split('::')[-1] and len(t[2]) == 2 and strip(t[2][0])[0] == 'closure' and strip(t[2][1])[0] == 'tuple':
+        # a local closure applied to arguments (`let f = |d| 2 * d + w - r + 1; f(d0)`): the formula is its body
+        from symex import apply_closure
+        try:
+            rets = [q.ret for q in (apply_closure(t[2][0], list(strip(t[2][1])[1])) or []) if q.end == 'return' and q.ret is not None]
+        except Exception:
+            rets = []
+        if len(rets) == 1:
+            return affine(rets[0], atom_name)
     return {nm if nm is not None else ('atom', sk(t)): Fraction(1)}
 
 
@@ -162,11 +171,17 @@ def check_ss(facts, rep, sites=None):
                     break
                 others = {k: v for k, v in f.items() if k not in ('w', 'r', 1)}
                 core = {k: v for k, v in f.items() if k in ('w', 'r', 1)}
+                if not core and len(others) == 1 and list(others.values()) == [1]:
+                    # the whole value is one opaque term (a call the reader cannot open): the formula is not visible here
+                    bad = 'opaque'
+                    break
                 if core != want or len(others) != 1 or list(others.values()) != [2]:
                     bad = '%s = %s' % (nm, fshow({('d' if k in others else k): v for k, v in f.items()}))
                     break
             n += 1
-            if bad:
+            if bad == 'opaque':
+                rep.indet('E8.F1: `%s` in %s is computed by a call the reader cannot open' % (nm, b.defp))
+            elif bad:
                 rep.violation('E8.F1-ss-formula', inst, '%s computes %s; every site must compute 2*d + w - r + 1 (d: divisibility, w: writhe, r: Seifert circles)' % (b.defp, bad),
                               where=b.where())
             else:
